@@ -451,7 +451,15 @@ class Gen:
 
 
 def gen_scenarios(ck: Check, cat):
+    import glob
+    import os
     g = Gen(ck, cat)
+    # corpus first: minimised past failures / findings
+    for fn in sorted(glob.glob(os.path.join(os.path.dirname(os.path.dirname(os.path.abspath(__file__))),
+                                            "corpus", "C12", "*.json"))):
+        sc = json.load(open(fn))["replay"]["scenario"]
+        sc["meta"]["family"] = "corpus"
+        g.scenarios.append(sc)
     idx = {(k[0], k[1]): i for i, k in enumerate(KINDS)}
     hb, lg = idx[("Heartbeat", 0)], idx[("LeaveGroup", 0)]
     dr2, lpr = idx[("DeleteRecords", 2)], idx[("ListPartitionReassignments", 0)]
